@@ -721,12 +721,11 @@ find_value (const DBusString *str,
   return FALSE;
 }
 
-/* duplicates aren't allowed so the real legitimate max is only 6 or
- * so. Leaving extra so we don't have to bother to update it.
- * FIXME this is sort of busted now with arg matching, but we let
- * you match on up to 10 args for now
+/* duplicates aren't allowed so the real legitimate max is the 64
+ * possible argN keys plus the 7 other keys (path and path_namespace are
+ * mutually exclusive). Leaving extra so we don't have to bother to update it.
  */
-#define MAX_RULE_TOKENS 16
+#define MAX_RULE_TOKENS 80
 
 /* this is slightly too high level to be termed a "token"
  * but let's not be pedantic.
@@ -794,6 +793,14 @@ tokenize_rule (const DBusString *rule_text,
 
     next:
       ++i;
+    }
+
+  if (pos < _dbus_string_get_length (rule_text))
+    {
+      /* Don't silently ignore the rest of the rule */
+      dbus_set_error (error, DBUS_ERROR_MATCH_RULE_INVALID,
+                      "Match rule has more than %d keys", MAX_RULE_TOKENS);
+      goto out;
     }
 
   retval = TRUE;
